@@ -175,7 +175,7 @@ def rule_fwd_array(rows, prop):
             first = m.group(1) if m else (a[0] if a else "")
             if len(a) != 4 or [_fwd_norm(x) for x in a[1:]] != [_fwd_norm(x) for x in EVAL_TAIL]:
                 ok_ret = False; why = "eval() does not receive (view, forward(context), forward(output), resolver) in this order: " + e; break
-            if first.startswith("view::") and parse_call(first):
+            if re.match(r"(?:(?:::)?nmtools::)?view::", first) and parse_call(first):
                 # the view call written inline in the return statement: treat it as an anonymous local
                 locs["<inline>"] = first; first = "%<inline>"
             if not first.startswith("%") or first[1:] not in locs or (view_local and view_local != first[1:]):
@@ -189,6 +189,7 @@ def rule_fwd_array(rows, prop):
         if not pc:
             findings.append(finding("R-FWD.array.view", prop, r, "local " + view_local, "evaluated object is not a call of a view: " + init)); continue
         callee, args = pc
+        callee = re.sub(r"^(?:::)?nmtools::view::", "view::", callee)
         if callee != "view::" + want:
             findings.append(finding("R-FWD.array.view", prop, r, "local " + view_local, "wrapper for '%s' evaluates %s instead of view::%s" % (r["fn"], callee, want))); continue
         exp = []
@@ -265,8 +266,15 @@ def rule_fwd_functional(rows, prop):
         alt = allowed.get(owner, allowed.get(base))
         if not rets:
             findings.append(finding("R-FWD.functional.call", prop, r, "body", "functor callable returns nothing")); continue
+        locs_ = {f["a"]: f["b"] for f in r["facts"] if f["k"] == "local"}
         for e in rets:
-            if e == exp or (alt and e in [a["ret"] for a in alt]):
+            # a single-definition local holding the call, and a fully qualified spelling of the same view, are the same forwarding
+            e_n = e
+            m_ = re.fullmatch(r"%(\w+)", e_n.strip())
+            if m_ and m_.group(1) in locs_:
+                e_n = locs_[m_.group(1)]
+            e_n = re.sub(r"^(?:::)?nmtools::view::", "view::", e_n.strip())
+            if e_n == exp or (alt and (e in [a["ret"] for a in alt] or e_n in [a["ret"] for a in alt])):
                 continue
             findings.append(finding("R-FWD.functional.call", prop, r, e, "functor callable '%s' returns %s, expected %s (pack forwarded unchanged to the view of the same name)" % (owner, e, exp)))
         if len(samples) < 4:
